@@ -22,7 +22,7 @@ Families (plan()): cli-default / cli-unit (molecule, all, chain, regions incl. s
 (even / odd power, distances below the lower bound) / cli-sel (-eb) / cli-sep (-ermd 0..5 on ring-closing bridges and chain breaks) /
 cli-merge / cli-copies (identical chains share a molecule type, a stretched copy does not) / cli-number (numbered from 5, insertion
 codes, numbers that restart on a second segment of the same chain label) / cli-ff (martini22, elnedyn22 with and without -elastic) /
-cli-off (no request) / cli-nan (a selected bead without coordinates) / cli-thr (a second run with the cut-off, or the minimum force,
+cli-off (no request) / cli-force (minimum force equal to the undecayed constant: nothing written) / cli-nan (a selected bead without coordinates) / cli-thr (a second run with the cut-off, or the minimum force,
 placed just inside / outside one pair)."""
 import contextlib
 import importlib.machinery
@@ -650,6 +650,8 @@ QUICK_PLAN = [
     ('cli-ff', 'IJ7', {'ff': 'martini22', 'flag': True, 'unit': 'molecule', 'em': 0.0, 'ea': 0.0, 'eb': None, 'merge': [], 'mergeall': False},
      None, None),
     ('cli-off', 'W', {'ff': 'martini3001', 'flag': False}, None, None),
+    # the constant EQUALS the minimum force (no decay): "exceeds" is strict, nothing is written
+    ('cli-force', 'W', {'ff': 'martini3001', 'flag': True, 'unit': 'molecule', 'ef': 500.0, 'em': 500.0, 'ea': 0.0, 'eb': None, 'eu': 0.9}, None, None),
     ('cli-sep', 'g', {'ff': 'martini3001', 'flag': True, 'unit': 'all', 'resid': 'input', 'ermd': 4, 'eb': None, 'em': 0.0, 'ea': 0.0,
                       'eu': 0.9, 'merge': [], 'mergeall': False}, None, None),
     ('cli-number', 'Si', {'flag': True, 'unit': 'regions', 'regions': [[11, 14], [3, 9]], 'eb': None, 'em': 0.0, 'ea': 0.0, 'eu': 1.1,
